@@ -4,7 +4,7 @@
 #include "factory_lib.hxx"
 namespace drv {
    using L = impl::Lexicon;
-   constexpr int MAXH = 3;
+   constexpr int MAXH = 4;      // histories of up to four declarations (the quick tier uses three, the thorough tier four)
    struct Hist { const ipr::Decl* d[MAXH]; const ipr::Name* n[MAXH]; const ipr::Type* t[MAXH]; int k; };
    inline impl::Region& root() { return *new impl::Region{ Optional<ipr::Region>{ } }; }
    inline int first_same(const Hist& h, int i) { for (int j = 0; j < MAXH; ++j) if (j < h.k && h.n[j] == h.n[i] && h.t[j] == h.t[i]) return j; return i; }
@@ -36,10 +36,10 @@ namespace drv {
       return bad;
    }
    // heterogeneous scope: variables (ni / ti choose name and type of each declaration from pools of two)
-   unsigned s_vars(const Name& n0, const Name& n1, const Name& n2, const Type& t0, const Type& t1, const Type& t2, int k, int ni0, int ni1, int ni2, int ti0, int ti1, int ti2)
+   unsigned s_vars(const Name& n0, const Name& n1, const Name& n2, const Type& t0, const Type& t1, const Type& t2, int k, int ni0, int ni1, int ni2, int ni3, int ti0, int ti1, int ti2, int ti3)
    {
       impl::Region& r = root(); Hist h; h.k = k;
-      const Name* ns[2] = { &n0, &n1 }; const Type* ts[2] = { &t0, &t1 }; int ni[MAXH] = { ni0, ni1, ni2 }; int ti[MAXH] = { ti0, ti1, ti2 };
+      const Name* ns[2] = { &n0, &n1 }; const Type* ts[2] = { &t0, &t1 }; int ni[MAXH] = { ni0, ni1, ni2, ni3 }; int ti[MAXH] = { ti0, ti1, ti2, ti3 };
       unsigned bad = 0;
       for (int i = 0; i < MAXH; ++i) if (i < k) {
          h.n[i] = ns[ni[i]]; h.t[i] = ts[ti[i]];
@@ -64,8 +64,8 @@ namespace drv {
    // one name declared with THREE distinct types, entered in the order (a, b, c) of their address ranks: every selection by type after every step
    unsigned s_types3(const Name& n0, const Name& other, const Type& t0, const Type& t1, const Type& t2, const Type& t3, int a, int b, int c)
    {
-      impl::Region& r = root(); Hist h; h.k = 3; const Type* ts[3] = { &t0, &t1, &t2 }; int ord[MAXH] = { a, b, c }; unsigned bad = 0;
-      for (int i = 0; i < MAXH; ++i) {
+      impl::Region& r = root(); Hist h; h.k = 3; const Type* ts[3] = { &t0, &t1, &t2 }; int ord[3] = { a, b, c }; unsigned bad = 0;
+      for (int i = 0; i < 3; ++i) {
          h.n[i] = &n0; h.t[i] = ts[ord[i]]; h.d[i] = r.declare_var(n0, *h.t[i]);
          Hist p = h; p.k = i + 1; bad |= scope_clauses(r.bindings(), p, other, t3);
          for (int j = 0; j < 3; ++j) {                       // the complete selection matrix: declared types select their declaration, the others nothing
@@ -122,16 +122,16 @@ namespace drv {
    unsigned s_parameters(L& lx, Mapping_level lv, const Name& n0, const Name& n1, const Name& n2, const Name& other, const Type& t0, const Type& t1, const Type& t2, int k)
    {
       impl::Region& g = root(); impl::Mapping* m = lx.make_mapping(g, lv);
-      const ipr::Name* n[MAXH] = { &n0, &n1, &n2 }; const ipr::Type* t[MAXH] = { &t0, &t1, &t2 }; const ipr::Decl* d[MAXH] = { nullptr, nullptr, nullptr }; unsigned bad = 0;
-      for (int i = 0; i < MAXH; ++i) if (i < k) { const ipr::Parameter& p = *m->param(*n[i], *t[i]); d[i] = &p; if (p.position() != Decl_position(i)) bad |= 512u; }     // positions equal to their index
+      const ipr::Name* n[MAXH] = { &n0, &n1, &n2, &n2 }; const ipr::Type* t[MAXH] = { &t0, &t1, &t2, &t2 }; const ipr::Decl* d[MAXH] = { nullptr, nullptr, nullptr, nullptr }; unsigned bad = 0;
+      for (int i = 0; i < 3; ++i) if (i < k) { const ipr::Parameter& p = *m->param(*n[i], *t[i]); d[i] = &p; if (p.position() != Decl_position(i)) bad |= 512u; }     // positions equal to their index
       const ipr::Parameter_list& pl = m->parameters();
       return bad | homogeneous_clauses(pl.region().bindings(), d, n, t, k, other);
    }
    unsigned s_enumerators(L& lx, Enum::Kind kind, const Name& n0, const Name& n1, const Name& n2, const Name& other, int k)
    {
       impl::Region& g = root(); impl::Enum* e = lx.make_enum(g, kind); const ipr::Enum& ie = *e;
-      const ipr::Name* n[MAXH] = { &n0, &n1, &n2 }; const ipr::Type* t[MAXH] = { &ie, &ie, &ie }; const ipr::Decl* d[MAXH] = { nullptr, nullptr, nullptr }; unsigned bad = 0;
-      for (int i = 0; i < MAXH; ++i) if (i < k) { const ipr::Enumerator& p = *e->add_member(*n[i]); d[i] = &p; if (p.position() != Decl_position(i)) bad |= 512u; }
+      const ipr::Name* n[MAXH] = { &n0, &n1, &n2, &n2 }; const ipr::Type* t[MAXH] = { &ie, &ie, &ie, &ie }; const ipr::Decl* d[MAXH] = { nullptr, nullptr, nullptr, nullptr }; unsigned bad = 0;
+      for (int i = 0; i < 3; ++i) if (i < k) { const ipr::Enumerator& p = *e->add_member(*n[i]); d[i] = &p; if (p.position() != Decl_position(i)) bad |= 512u; }
       return bad | homogeneous_clauses(ie.region().bindings(), d, n, t, k, other);
    }
 }
